@@ -7,7 +7,8 @@ Transcribed from
 * `src/Script/Components/TargetComponent.cpp` (`SetTargetName`, `~TargetComponent`),
 * `src/Script/SimpleEntity.cpp` (`EventSetTargetname`, destruction order: the component member is
   destroyed before the `Listener`/`AbstractClass` bases),
-* `src/Script/ScriptVMOperation.cpp` (`OP_UN_TARGETNAME`, `ExecCmdMethodCommon`,
+* `src/Script/ScriptVMOperation.cpp` (`OP_UN_TARGETNAME` incl. its Debug-stream branch,
+  `ScriptVM::Execute`'s warning handler, `ExecCmdMethodCommon`,
   `OP_LOAD_FIELD_VAR`, `OP_UN_SIZE`, `OP_STORE_ARRAY`),
 * `src/Script/ScriptVariable.cpp` (`setContainerValue`, `setDataInternal`, `size`, `arraysize`,
   `evalArrayAt`, `listenerValue`, `listenerAt`, `CastConstArrayValue`).
@@ -67,6 +68,8 @@ structure Cfg where
   fieldFan : Bool := false
   /-- the generated scripts stop spawning at this many objects (`if (level.n < maxObj)`) -/
   maxObj : Nat := 8
+  /-- a Debug output stream is attached to the context (`OutputInfo::GetOutput(Debug) != nullptr`) -/
+  dbg : Bool := false
 
 structure State where
   nextObj : Nat := 1
@@ -214,7 +217,8 @@ def getTargetnameIndex (s : State) (ent : ObjId) (n : Name) : Nat :=
 
 /-! ## `$name` -/
 
-/-- `OP_UN_TARGETNAME` (debug stream off) -/
+/-- the value `OP_UN_TARGETNAME` leaves on the stack (the same with or without a Debug stream; with
+    one, the zero-bearers branch additionally raises a warning: `note`) -/
 def evalTarget (cfg : Cfg) (s : State) (n : Name) : Value :=
   match s.tbl n with
   | none => .obj none                                  -- `!foundTargetList`
@@ -322,8 +326,33 @@ def sayIndex (s : State) (a : Value) (i : Nat) : Res :=
     | some rs => if i = 0 ∨ rs.length < i then bad else .ok (sayId s "i" ((rs[i - 1]?).getD none))
   | .arr rs => if i = 0 ∨ rs.length < i then bad else .ok (sayId s "i" ((rs[i - 1]?).getD none))
 
-/-- one simple statement; `self` is the thread's `self` -/
-def act (cfg : Cfg) (self : Option ObjId) (s : State) : Act → Res
+/-- the test of the zero-bearers branch of `OP_UN_TARGETNAME`:
+    `!foundTargetList || !foundTargetList->NumObjects()` -/
+def noTarget (s : State) (n : Name) : Bool :=
+  match s.tbl n with
+  | none => true
+  | some l => ((s.lists l).getD []).length == 0
+
+/-- With a Debug stream attached the zero-bearers branch of `OP_UN_TARGETNAME` throws
+    `NoTargetException` *after* it has replaced the stack top by the NULL listener; `ScriptVM::Execute`
+    catches it, `HandleScriptException` prints the warning ("Can't find target name …") and the
+    program goes on with the next opcode.  So the only effect is the warning: the value is the one
+    `evalTarget` gives.  `note` is applied where a statement evaluates `$name`. -/
+def note (cfg : Cfg) (s : State) : Option Src → State
+  | some (.name n) => if cfg.dbg && noTarget s n then say s "!notarget" else s
+  | _ => s
+
+/-- the `$name` / variable a simple statement evaluates -/
+def Act.src : Act → Option Src
+  | .capture _ n => some (.name n)
+  | .query x => some x
+  | .size x => some x
+  | .index x _ => some x
+  | _ => none
+
+/-- one simple statement after its `$name` operand (if any) has been evaluated; `self` is the
+    thread's `self` -/
+def actCore (cfg : Cfg) (self : Option ObjId) (s : State) : Act → Res
   | .spawn n =>
     if cfg.maxObj < s.nextObj then .ok (say s "full") else
     let o := s.nextObj
@@ -362,6 +391,10 @@ def act (cfg : Cfg) (self : Option ObjId) (s : State) : Act → Res
     | some sz => .ok (say s s!"s {sz}")
     | none => .ub
   | .index src i => sayIndex s (evalSrc cfg s src) i
+
+/-- one simple statement -/
+def act (cfg : Cfg) (self : Option ObjId) (s : State) (a : Act) : Res :=
+  actCore cfg self (note cfg s a.src) a
 
 def acts (cfg : Cfg) (self : Option ObjId) : List Act → State → Res
   | [], s => .ok s
@@ -422,10 +455,10 @@ def fieldSet (cfg : Cfg) (s : State) (src : Src) (x : Nat) : Res :=
 
 def stmt (cfg : Cfg) (s : State) : Stmt → Res
   | .act a => act cfg none s a
-  | .fan src h => fanOut cfg s src (fun st o => acts cfg (some o) h st)
-  | .fanName src n => fanOut cfg s src (fun st o => .ok (setTargetName st o n))
-  | .fanDelete src => fanOut cfg s src (fun st o => .ok (destroy st o))
-  | .fieldSet src x => fieldSet cfg s src x
+  | .fan src h => fanOut cfg (note cfg s (some src)) src (fun st o => acts cfg (some o) h st)
+  | .fanName src n => fanOut cfg (note cfg s (some src)) src (fun st o => .ok (setTargetName st o n))
+  | .fanDelete src => fanOut cfg (note cfg s (some src)) src (fun st o => .ok (destroy st o))
+  | .fieldSet src x => fieldSet cfg (note cfg s (some src)) src x
 
 def run (cfg : Cfg) : List Stmt → State → Res
   | [], s => .ok s
